@@ -8,6 +8,10 @@ CONSTANTS
   PastEndRule = "ge"
   CompletionOrder = "rewrite-publish"
   Withdrawals = FALSE
+  ConcurrentWithdrawals = FALSE
+  HostReads = "snapshot"
+  Reannouncements = TRUE
+  ReannounceRule = "atomic"
 CHECK_DEADLOCK FALSE
 INVARIANTS BoundedCalls ExactCalls EachNodeOnceInOrder InOrder CursorRoundTrip PastEndIsTerminal NoCrash DeliveredComposite ResumeSafe
 PROPERTIES Terminates
